@@ -240,6 +240,9 @@ func (env *SpecEnv) binderSort(tn string) (*Sort, types.Type) {
 		return sortStr, types.Typ[types.String]
 	case "Iface", "error":
 		return sortIface, nil
+	case "Bytes":
+		vc.needBytes = true
+		return &Sort{K: SOpaque, Name: "Bytes"}, nil
 	}
 	for _, b := range types.Typ {
 		if b.Name() == tn {
@@ -1037,6 +1040,10 @@ func (env *SpecEnv) callExpr(e *SExpr) SVal {
 			vc.needBitLen, rs = true, sortBV(64)
 		case "exp256":
 			rs = sortBV(256)
+		case "beval":
+			vc.needBytes, rs = true, sortInt
+		case "beenc":
+			vc.needBytes, rs = true, &Sort{K: SOpaque, Name: "Bytes"}
 		case "select":
 			if len(as) == 2 && as[0].T != nil && as[0].T.K == SArray {
 				return SVal{T: tSelect(as[0], as[1])}
@@ -1393,10 +1400,23 @@ func (env *SpecEnv) callExpr(e *SExpr) SVal {
 	case "Z":
 		// mathematical value of a machine integer (math mode: identity; bv mode: not available)
 		x := env.eval(e.Args[0])
-		if vc.mode == ModeBV {
-			env.fail("Z() is only available in math mode")
+		if x.Untyped != nil {
+			return SVal{T: intLit(x.Untyped)}
 		}
-		return SVal{T: env.termOrLoad(x)}
+		t := env.termOrLoad(x)
+		if vc.mode == ModeBV && t.T.K == SBV {
+			signed := false
+			if x.GoT != nil {
+				if _, sg, ok := intInfo(x.GoT); ok {
+					signed = sg
+				}
+			}
+			if signed {
+				return SVal{T: mk(fmt.Sprintf("(ite (bvslt %s (_ bv0 %d)) (- (bv2nat (bvneg %s))) (bv2nat %s))", t.S, t.T.Bits, t.S, t.S), sortInt)}
+			}
+			return SVal{T: mk("(bv2nat "+t.S+")", sortInt)}
+		}
+		return SVal{T: t}
 	}
 	// integer conversions T(x)
 	if bt := basicByName(name); bt != nil && len(e.Args) == 1 {
@@ -1455,6 +1475,26 @@ func basicByName(n string) *types.Basic {
 // specParamSorts expands a spec fn parameter list into SMT parameters.
 func (env *SpecEnv) callSpecFn(sf *SpecFn, e *SExpr) SVal {
 	vc := env.vc
+	if sf.Macro {
+		if len(e.Args) != len(sf.Params) {
+			env.fail("%s expects %d arguments", sf.Name, len(sf.Params))
+		}
+		sub := *env
+		sub.names = map[string]SVal{}
+		for k, v := range env.names {
+			sub.names[k] = v
+		}
+		sub.oldNames = map[string]SVal{}
+		for k, v := range env.oldNames {
+			sub.oldNames[k] = v
+		}
+		for i, p := range sf.Params {
+			v := env.eval(e.Args[i])
+			sub.names[p.Name] = v
+			sub.oldNames[p.Name] = v
+		}
+		return sub.eval(sf.Expr)
+	}
 	vc.declareSpecFn(sf)
 	if len(e.Args) != len(sf.Params) {
 		env.fail("%s expects %d arguments", sf.Name, len(sf.Params))
@@ -1514,6 +1554,10 @@ func (vc *VC) declareSpecFn(sf *SpecFn) {
 		return
 	}
 	vc.specFnDone[sf.Name] = true
+	if strings.Contains(sf.Body, "ghost(") {
+		// a defined function is state-independent; reading ghost state needs a macro (expanded in the current state)
+		vc.errorf("%s:%d: spec fn %s reads ghost state: declare it 'spec macro fn'", shortPath(sf.File), sf.Line, sf.Name)
+	}
 	var pkg *types.Package
 	if sp := vc.P.Pkgs[sf.Pkg]; sp != nil {
 		pkg = sp.Pkg
